@@ -1,6 +1,8 @@
 import CkbVerif.Model.MMR
 import CkbVerif.Model.Filter
 import CkbVerif.Lemmas.Filter
+import CkbVerif.Lemmas.MMRSize
+import CkbVerif.Lemmas.MMRCommit
 /-!
 # C19 — chain-root commitments, proofs and filter hashes match the chain they describe
 
@@ -8,6 +10,157 @@ Property theorems only; helper lemmas are in `Lemmas/MMR*.lean`, `Lemmas/Filter.
 -/
 namespace CkbVerif.C19
 open CkbVerif.MMR CkbVerif.Filter
+
+/-! ## chain-root MMR
+
+`merge : α → α → α` is arbitrary (the real one hashes two header digests).  `specD merge leaves`
+is the list of mountains (perfect-tree roots, by the binary decomposition of the leaf count) of a
+leaf list and `bagD` bags them right to left: together the chain root *as a function of the leaf
+list only*.  The positional model (`push`, `getRoot`, `recreate` over a store map `pos → node`)
+follows the crate's code; the theorems say it computes exactly that function whatever else the
+store contains. -/
+
+variable {α : Type}
+
+/-- **The root is a function of the leaf list only.** Start from an empty MMR over *any* store
+content `s0` (stale nodes of earlier histories included) and push `leaves` one by one as the crate
+does: every push succeeds, the size is `leaf_index_to_mmr_size(n-1)`, and `get_root` is the bagging
+of the perfect-tree peaks of `leaves`. -/
+theorem root_eq_fold (merge : α → α → α) (s0 : Store α) (leaves : List α) (hne : leaves ≠ []) :
+    ∃ m, pushAll merge ⟨0, s0⟩ leaves = some m ∧
+      getRoot merge m = bagD merge (specD merge leaves) ∧
+      m.size = leafIndexToMmrSize (leaves.length - 1) := by
+  have hinv0 : Inv (⟨0, s0⟩ : MMR α) [] := ⟨⟨0, trivial⟩, rfl, trivial⟩
+  obtain ⟨m, hm, hinv, -, -⟩ := pushAll_inv merge _ _ leaves hinv0
+  refine ⟨m, hm, getRoot_inv merge m _ hinv (specD_ne_nil merge leaves hne), ?_⟩
+  obtain ⟨⟨b, hd⟩, hlc⟩ := leafCount_specD merge leaves
+  have hne' : heights (specD merge leaves) ≠ [] := by
+    have := specD_ne_nil merge leaves hne
+    intro h; apply this
+    simpa [heights] using h
+  have := leafIndexToMmrSize_spec hd hne'
+  rw [hlc] at this
+  rw [this]; exact hinv.size
+
+example : (pushAll Term.node ⟨0, fun p => some (.leaf (900 + p))⟩ [.leaf 0, .leaf 1, .leaf 2]).bind (getRoot Term.node)
+    = some (.node (.node (.leaf 0) (.leaf 1)) (.leaf 2)) := by decide
+
+/-- **Stale nodes are never read.** Two stores that agree below `mmr_size` (and hold a valid MMR
+there) are indistinguishable: pushing any further leaves succeeds on both, with the same sizes and
+the same root. Positions `≥ mmr_size` — the nodes an abandoned branch leaves behind in
+`COLUMN_CHAIN_ROOT_MMR` — influence nothing. -/
+theorem stale_nodes_unread (merge : α → α → α) (n : Nat) (s s' : Store α) (ms : List (Nat × α))
+    (hinv : Inv ⟨n, s⟩ ms) (hagree : ∀ q, q < n → s' q = s q) (ls : List α) :
+    ∃ m m', pushAll merge ⟨n, s⟩ ls = some m ∧ pushAll merge ⟨n, s'⟩ ls = some m' ∧
+      m.size = m'.size ∧ getRoot merge m = getRoot merge m' := by
+  have hinv' : Inv ⟨n, s'⟩ ms := Inv_congr hinv hagree
+  obtain ⟨m, hm, hi, -, -⟩ := pushAll_inv merge _ _ ls hinv
+  obtain ⟨m', hm', hi', -, -⟩ := pushAll_inv merge _ _ ls hinv'
+  refine ⟨m, m', hm, hm', by rw [hi.size, hi'.size], ?_⟩
+  by_cases hnil : ls.foldl (pushD merge) ms = []
+  · have h0 : m.size = 0 := by rw [hi.size, hnil]; rfl
+    have h0' : m'.size = 0 := by rw [hi'.size, hnil]; rfl
+    simp [getRoot, h0, h0']
+  · rw [getRoot_inv merge m _ hi hnil, getRoot_inv merge m' _ hi' hnil]
+
+/-- **Root after a reorganisation.** Push the old main chain `a ++ b`, re-create the MMR object at
+the fork point with `leaf_index_to_mmr_size(|a| - 1)` over the *same, uncleaned* store (what
+`reconcile_main_chain` and `Snapshot::chain_root_mmr` do), push the new branch `c`: the root is the
+chain root of `a ++ c` — exactly what a fresh MMR over the new main chain gives — and the size is
+`leaf_index_to_mmr_size(|a ++ c| - 1)`. With `c = []` this is `chain_root_mmr(n)` for an earlier
+block of the main chain. -/
+theorem root_after_reorg (merge : α → α → α) (s0 : Store α) (a b c : List α) (ha : a ≠ []) :
+    ∃ mab, pushAll merge ⟨0, s0⟩ (a ++ b) = some mab ∧
+      ∃ m', pushAll merge (recreate mab (a.length - 1)) c = some m' ∧
+        getRoot merge m' = bagD merge (specD merge (a ++ c)) ∧
+        m'.size = leafIndexToMmrSize ((a ++ c).length - 1) := by
+  have hinv0 : Inv (⟨0, s0⟩ : MMR α) [] := ⟨⟨0, trivial⟩, rfl, trivial⟩
+  obtain ⟨ma, hma, hia, -, -⟩ := pushAll_inv merge _ _ a hinv0
+  obtain ⟨mab, hmab, -, hst, -⟩ := pushAll_inv merge ma _ b hia
+  have hpush : pushAll merge ⟨0, s0⟩ (a ++ b) = some mab := by
+    rw [pushAll_append, hma]; exact hmab
+  refine ⟨mab, hpush, ?_⟩
+  -- the re-created object satisfies the invariant of `a`
+  obtain ⟨⟨ba, hda⟩, hlca⟩ := leafCount_specD merge a
+  have hnea : heights (specD merge a) ≠ [] := by
+    have := specD_ne_nil merge a ha
+    intro h; apply this; simpa [heights] using h
+  have hsz := leafIndexToMmrSize_spec hda hnea
+  rw [hlca] at hsz
+  have hir : Inv (recreate mab (a.length - 1)) (specD merge a) := by
+    have : (recreate mab (a.length - 1)) = ⟨ma.size, mab.store⟩ := by
+      simp [recreate, hsz, hia.size]; rfl
+    rw [this]
+    exact Inv_congr (s := ma.store) hia hst
+  obtain ⟨m', hm', hi', -, -⟩ := pushAll_inv merge _ _ c hir
+  have hspec : c.foldl (pushD merge) (specD merge a) = specD merge (a ++ c) := by
+    simp [specD, List.foldl_append]
+  rw [hspec] at hi'
+  have hneac : a ++ c ≠ [] := by simp [ha]
+  refine ⟨m', hm', getRoot_inv merge m' _ hi' (specD_ne_nil merge _ hneac), ?_⟩
+  obtain ⟨⟨b', hd'⟩, hlc'⟩ := leafCount_specD merge (a ++ c)
+  have hne' : heights (specD merge (a ++ c)) ≠ [] := by
+    have := specD_ne_nil merge _ hneac
+    intro h; apply this; simpa [heights] using h
+  have := leafIndexToMmrSize_spec hd' hne'
+  rw [hlc'] at this
+  rw [this]; exact hi'.size
+
+example :
+    let old := [Term.leaf 0, .leaf 1, .leaf 2, .leaf 3, .leaf 4]
+    ((pushAll Term.node ⟨0, Store.empty⟩ old).bind fun m =>
+      (pushAll Term.node (recreate m 2) [.leaf 13]).bind (getRoot Term.node))
+    = some (.node (.node (.leaf 0) (.leaf 1)) (.node (.leaf 2) (.leaf 13))) := by decide
+
+/-- **`leaf_index_to_mmr_size` / `leaf_index_to_pos`**: after `n ≥ 1` pushes the MMR holds
+`2n - count_ones(n)` nodes, and the `(n+1)`-th leaf is written at exactly that position. -/
+theorem mmr_size_arith (merge : α → α → α) (s0 : Store α) (leaves : List α) (x : α) (hne : leaves ≠ []) :
+    ∃ m m', pushAll merge ⟨0, s0⟩ leaves = some m ∧ push merge m x = some (m', leafIndexToMmrSize (leaves.length - 1)) := by
+  obtain ⟨m, hm, -, hsz⟩ := root_eq_fold merge s0 leaves hne
+  have hinv0 : Inv (⟨0, s0⟩ : MMR α) [] := ⟨⟨0, trivial⟩, rfl, trivial⟩
+  obtain ⟨m1, hm1, hinv, -, -⟩ := pushAll_inv merge _ _ leaves hinv0
+  have : m1 = m := by rw [hm] at hm1; exact (Option.some.inj hm1).symm
+  subst this
+  obtain ⟨m', hp, -, -, -⟩ := push_inv merge m1 _ x hinv
+  exact ⟨m1, m', hm, by rw [← hsz]; exact hp⟩
+
+/-- **The root commits to the whole chain** (the algebraic core of proof soundness). If `merge` is
+injective — the collision-freeness assumption on the hash inside `MergeHeaderDigest::merge` — two
+leaf lists of the same length with the same chain root are equal: a root (hence an extension
+commitment, hence anything that verifies against it) of one fork can never be the root of another
+fork of the same height. (Real header digests also carry block-number ranges, which separates
+different heights; the abstract `merge` here does not, hence the length hypothesis.)
+
+Full statement not proved (tied by correspondence and by the harness's accept/reject oracle only):
+`proof_sound`: `verify merge size proof root leaves = some true → every (pos, leaf) ∈ leaves is the
+leaf stored at `pos` in the chain of `root`` and `proof_complete`: `genProof` then `verify` succeeds,
+for the crate's queue-based multi-leaf algorithms (`genProof`, `calculateRoot` in Model/MMR.lean). -/
+theorem root_commits_to_chain (merge : α → α → α) (hinj : Injective2 merge) (l l' : List α)
+    (hlen : l.length = l'.length)
+    (hroot : bagD merge (specD merge l) = bagD merge (specD merge l')) : l = l' := by
+  have hh : heights (specD merge l) = heights (specD merge l') := by
+    have := heights_specD_len merge l.length l.reverse l'.reverse (by simp) (by simp [hlen])
+    simpa using this
+  have hs := bagD_inj hinj _ _ hh hroot
+  have := specD_inj_rev hinj l.reverse l'.reverse (by simp [hlen]) (by simpa using hs)
+  simpa using this
+
+example : Injective2 Term.node := by
+  intro a b c d h; cases h; exact ⟨rfl, rfl⟩
+
+/-- Consequence on the positional model: after a reorganisation from `a ++ b` to a different branch
+`a ++ c` of the same length, the served root differs from the old one. -/
+theorem reorg_changes_root (merge : α → α → α) (hinj : Injective2 merge) (s0 s1 : Store α)
+    (a b c : List α) (hlen : b.length = c.length) (hbc : b ≠ c) (ha : a ≠ []) :
+    ∃ m m', pushAll merge ⟨0, s0⟩ (a ++ b) = some m ∧ pushAll merge ⟨0, s1⟩ (a ++ c) = some m' ∧
+      getRoot merge m ≠ getRoot merge m' := by
+  obtain ⟨m, hm, hr, -⟩ := root_eq_fold merge s0 (a ++ b) (by simp [ha])
+  obtain ⟨m', hm', hr', -⟩ := root_eq_fold merge s1 (a ++ c) (by simp [ha])
+  refine ⟨m, m', hm, hm', ?_⟩
+  rw [hr, hr']
+  intro h
+  have := root_commits_to_chain merge hinj (a ++ b) (a ++ c) (by simp [hlen]) h
+  exact hbc (List.append_cancel_left this)
 
 /-! ## block filter -/
 
